@@ -33,7 +33,9 @@ pub fn o_slpp_roundtrip(input: &[u8], p: &P) -> Out {
 			return Err(e("hash", format!("hash {:?} reported although not requested", g1.hash)));
 		}
 		let a = write_slpp(g1b, p.comp).map_err(|f| e(&format!("slpp-write-failed:{}", f.key()), format!("peppi::write failed: {}", f.describe())))?;
-		let g2 = read_slpp(&a, false).map_err(|f| e(&format!("slpp-read-failed:{}", f.key()), format!("peppi::read of the written archive failed: {}", f.describe())))?;
+		// the archive is read back through an environment-owned reader (p.n[1..] = read schedule)
+		let rd = crate::env::EnvReader::new(&a, crate::inc::sched_of(p));
+		let g2 = read_slpp_from(rd, false).map_err(|f| e(&format!("slpp-read-failed:{}", f.key()), format!("peppi::read of the written archive failed: {}", f.describe())))?;
 		if g2.hash != g1.hash {
 			return Err(e("hash-carried", format!("hash after .slpp {:?} != before {:?}", g2.hash, g1.hash)));
 		}
@@ -64,40 +66,45 @@ pub fn o_slpp_roundtrip(input: &[u8], p: &P) -> Out {
 }
 
 pub fn corner_replays(v: (u8, u8)) -> Vec<(AbsReplay, &'static str)> {
-	let ports = vec![pc(0, false), PortCfg { port: 2, ics: true, ptype: 1 }];
+	// full cross product of the optional parts: frames x metadata x Game End x Gecko codes
 	let mut out = vec![];
 	let base = per_version_replay(v, Fill::A);
-	out.push((base.clone(), "base"));
-	let mut a = base.clone();
-	a.frames.clear();
-	out.push((a, "zero-frames"));
-	let mut a = base.clone();
-	a.metadata = None;
-	out.push((a, "no-metadata"));
-	let mut a = base.clone();
-	a.metadata = Some(vec![]);
-	out.push((a, "empty-metadata"));
-	let mut a = base.clone();
-	a.ends = 0;
-	out.push((a, "no-end"));
-	let mut a = base.clone();
-	a.ends = 2;
-	out.push((a, "double-end"));
-	if spec::gte(v, (3, 3)) {
-		let mut a = base.clone();
-		a.gecko = Gecko::Live { live: 700, nonzero_pad: true };
-		out.push((a, "gecko"));
+	for frames in [true, false] {
+		for (meta, mname) in [(Some(default_meta()), ""), (None, "no-metadata"), (Some(vec![]), "empty-metadata")] {
+			for ends in [1u8, 0, 2] {
+				for gecko in [false, true] {
+					if gecko && !spec::gte(v, (3, 3)) {
+						continue;
+					}
+					let mut a = base.clone();
+					if !frames {
+						a.frames.clear();
+					}
+					a.metadata = meta.clone();
+					a.ends = ends;
+					if gecko {
+						a.gecko = Gecko::Live { live: 700, nonzero_pad: true };
+					}
+					let class: &'static str = match (frames, mname, ends, gecko) {
+						(true, "", 1, false) => "base",
+						(false, "", 1, false) => "zero-frames",
+						(true, m, 1, false) if !m.is_empty() => if m == "no-metadata" { "no-metadata" } else { "empty-metadata" },
+						(true, "", 0, false) => "no-end",
+						(true, "", 2, false) => "double-end",
+						(true, "", 1, true) => "gecko",
+						_ => "combined-corners",
+					};
+					out.push((a, class));
+				}
+			}
+		}
 	}
-	let mut a = base_replay(v, ports, 0);
-	a.metadata = None;
-	a.ends = 0;
-	out.push((a, "nothing"));
 	out
 }
 
 pub fn run() {
 	let cx = ctx();
-	cx.note("rule", json!("recorder replays x compression in {none, LZ4, ZSTD} x hash {off, on}: slippi::write(peppi::read(peppi::write(slippi::read(x)))) == x, hash and quirks carried, the re-read game equal field by field; corner list per version {zero frames, no metadata, empty metadata, no end, double end, gecko, nothing at all}; non-trivial = has an absence, rollback, item, gecko, missing/double end or no metadata"));
+	cx.note("rule", json!("recorder replays x compression in {none, LZ4, ZSTD} x hash {off, on}: slippi::write(peppi::read(peppi::write(slippi::read(x)))) == x, hash and quirks carried, the re-read game equal field by field; the full cross product of the optional parts per version {frames / none} x {metadata / none / empty} x {0,1,2 Game Ends} x {Gecko codes / none}; the archive read back through an environment-owned reader under chunked reads (1,2,3,7,511,513 bytes; thorough: more sizes and every two-piece split); non-trivial = has an absence, rollback, item, gecko, missing/double end or no metadata"));
 	cx.note("bounds", json!({"quick": "all 784 versions x base replay x none-compression; 25 class representatives x corner list x 3 compressions x 2 hash; history exploration at 5 versions x {P1P2, P1icsP3} x <=2 frames x <=1 deviation", "thorough": "layout-class edges x corner list x 3 x 2; history exploration (quick depth of C04: 25 versions x 6 port configs x <=3 frames x <=2 deviations) x 3 compressions"}));
 	cx.note("exhaustive", json!(true));
 	cx.note("assumptions", json!(["arrow2 IPC, lz4, zstd, tar and serde_json are trusted base; they are exercised, not verified in isolation"]));
@@ -114,6 +121,38 @@ pub fn run() {
 	}
 	for v in spec::v_all() {
 		cases.push((per_version_replay(v, Fill::B), P { comp: 0, hash: true, class: "allversions", ..Default::default() }));
+	}
+	// the archive read back under fragmented reads
+	{
+		use crate::env::Sched;
+		let mut scheds = vec![Sched::Chunk(1), Sched::Chunk(2), Sched::Chunk(3), Sched::Chunk(7), Sched::Chunk(511), Sched::Chunk(513)];
+		if !cx.quick() {
+			for k in [4usize, 5, 8, 15, 16, 17, 100, 512, 1000, 4096] {
+				scheds.push(Sched::Chunk(k));
+			}
+		}
+		for v in [(1u8, 0u8), (2, 2), (3, 7), (3, 16)] {
+			let mut a = per_version_replay(v, Fill::A);
+			if spec::gte(v, (3, 3)) {
+				a.gecko = Gecko::Live { live: 700, nonzero_pad: true };
+			}
+			a.ends = 2;
+			for sc in &scheds {
+				for comp in 0..3u8 {
+					let mut p = P { comp, hash: true, class: "fragmented-read", ..Default::default() };
+					crate::inc::set_sched(&mut p, sc);
+					cases.push((a.clone(), p));
+				}
+			}
+			if !cx.quick() && v == (3, 16) {
+				// every two-piece split of the archive (offsets beyond its end are no-ops)
+				for at in 1..70_000usize {
+					let mut p = P { comp: (at % 3) as u8, hash: false, class: "fragmented-read", ..Default::default() };
+					crate::inc::set_sched(&mut p, &Sched::SplitAt(at));
+					cases.push((a.clone(), p));
+				}
+			}
+		}
 	}
 	if cx.quick() {
 		for v in [(0, 1), (2, 0), (2, 2), (3, 0), (3, 16)] {
@@ -134,6 +173,12 @@ pub fn run() {
 				cases.push((a.clone(), P { comp, hash: comp == 2, class: "history", ..Default::default() }));
 			}
 		});
+	}
+	for (i, a) in long_replays(cx.quick()).into_iter().enumerate() {
+		if a.frames.len() > 1000 && a.frames[0].items > 100 {
+			continue; // the 67,100-item game goes through C01/C04 only
+		}
+		cases.push((a, P { comp: (i % 3) as u8, hash: false, class: "long-game", ..Default::default() }));
 	}
 	par_each(cases.into_iter(), |(abs, p), local| {
 		let bytes = Arc::new(record(&abs).doc.assemble());
